@@ -195,8 +195,11 @@ def plan(pid, tier):
         P.append(("STEP %s K=%d M=%d stale=%d pending=%d" % (s, K, M, S, Pn), layout.step_tasks(s, K, M, S, Pn), dict(base)))
     # deeper shapes of `simple` over a narrower value domain (the cost of `simple` is in the values: the bit loop of
     # select_best and the div/mod chains; the gap bookkeeping bugs are in the shapes)
-    narrow = [(2, 2, [1, 2], 6, 24), (3, 1, [1, 2], 6, 24)] if tier == "quick" else \
-             [(2, 2, [1, 2, 4], 8, 32), (3, 1, [1, 2, 4], 8, 32), (3, 2, [1, 2], 4, 16), (2, 3, [1, 2], 4, 16)]
+    # (thorough: the two deepest shapes, ~9 and ~11 min, are explored by the C01 check only; C13 keeps the quick ones)
+    if tier == "quick" or pid == "C13":
+        narrow = [(2, 2, [1, 2], 6, 24), (3, 1, [1, 2], 6, 24)]
+    else:
+        narrow = [(2, 2, [1, 2, 4], 8, 32), (3, 1, [1, 2, 4], 8, 32)] + ([(3, 2, [1, 2], 4, 16), (2, 3, [1, 2], 4, 16)] if pid == "C01" else [])
     for (K, M, al, smax, omax) in narrow:
         P.append(("STEP simple K=%d M=%d narrow domain (alignments %s, sizes <= %d, offsets <= %d)" % (K, M, al, smax, omax),
                   layout.step_tasks("simple", K, M, 0, 0, aligns=al), dict(base, aligns=al, smax=smax, omax=omax)))
@@ -207,8 +210,8 @@ def plan(pid, tier):
         # generate() / generate_variant() / GeneratorConfig executed on definitions from symbolic histories: a panic in
         # them (not inside a fragment generator's body or the codegen crate, which are event sinks) is a C13 candidate
         import genev
-        gcfg = genev.genev_tasks(["simple", "append_data"], [(2, 1)] if tier == "quick" else [(2, 1), (1, 2), (2, 2)]) + \
-            genev.genev_tasks(["append_data"], [(1, 1, 1), (3,), (0, 2)])
+        gcfg = genev.genev_tasks(["simple", "append_data"], [(2, 1)] if tier == "quick" else [(2, 1), (1, 2)]) + \
+            genev.genev_tasks(["append_data"], [(1, 1, 1), (3,), (0, 2)] + ([] if tier == "quick" else [(2, 2), (2, 1, 1)]))
         P.append(("GENEV generate() on definitions from symbolic histories (%d history shapes)" % len(gcfg), gcfg, dict(base, pending=True)))
     # histories from the empty builder (reachability / vacuity guard, add-then-remove before close, mixtures)
     strategies = ["simple", "basic", "append_data", "append_data_reverse"]
